@@ -4,3 +4,4 @@ cd /verif
 for c in C01 C02 C03 C04 C05 C06 C07 C08 C09 C10 C11 C12 C13 C14 C15 C16 C17 C18 C19 C20; do
   ./check $c thorough 2>&1 | grep -a "govc:\|selftest\|SELFTEST-WEAK\|VIOLATION" | cut -c1-220
 done
+cat out/selftest-C*.txt > mutants/RESULTS.txt 2>/dev/null
